@@ -333,7 +333,9 @@ def bad_values(t, rnd):
                 ("unencodable-char", ("a\ud800", 2))]
     elif k == "bits":
         n = 8 * t["w"]
-        out += [("wrong-bit-length", [True] * (n - 1)), ("wrong-bit-length", [False] * (n + 1)), ("wrong-bit-length", []),
+        import itertools
+        out += [("endless-iterator", itertools.repeat(True)), ("huge-range", range(10 ** 12)),
+                ("wrong-bit-length", [True] * (n - 1)), ("wrong-bit-length", [False] * (n + 1)), ("wrong-bit-length", []),
                 ("scalar-for-array", 1), ("wrong-bit-length", [True] * (2 * n))]
     elif k == "arr":
         el = t["el"]
@@ -382,7 +384,8 @@ def bad_values(t, rnd):
     elif k == "dt":
         out += [("max+1", (2 ** 32, 0)), ("max+1", (0, 65536)), ("min-1", (-1, 0)), ("str-for-int", ("a", 1))]
     elif k == "ip":
-        out += [("bad-address", "1.2.3"), ("bad-address", "1.2.3.256"), ("bad-address", "a.b.c.d"), ("bad-address", ""),
+        out += [("bad-address", "::1"), ("bad-address", "fe80::1"), ("bad-address", "2001:db8::8a2e:370:7334"),
+                ("bad-address", "1.2.3"), ("bad-address", "1.2.3.256"), ("bad-address", "a.b.c.d"), ("bad-address", ""),
                 ("int-for-str", 5), ("bad-address", "1.2.3.4.5")]
     return out
 
